@@ -163,4 +163,139 @@ theorem tcp_csum_valid {pkt : List UInt8} {hdrLen cs g : Nat} {segs : List (List
   simp only [hbt, htl', hg]
   exact key
 
+/-- IP length fields, IPv4 ID, sequence number and flags byte of every emitted TCP segment. -/
+theorem tcp_fields {pkt : List UInt8} {hdrLen cs g : Nat} {segs : List (List UInt8)}
+    (h : segmentTCP pkt hdrLen cs g = .ok segs) (hwf : v4 pkt ∨ 40 ≤ cs)
+    (hfit : hdrLen + min g (pkt.length - hdrLen) ≤ 65535) (i : Nat) (hi : i < segs.length) :
+    (v4 pkt → be16 (segs[i]) 2 = (segs[i]).length ∧ be16 (segs[i]) 4 = (be16 pkt 4 + i) % 65536) ∧
+    (¬ v4 pkt → be16 (segs[i]) 4 + 40 = (segs[i]).length) ∧
+    be16 (segs[i]) (cs + 4) * 65536 + be16 (segs[i]) (cs + 6)
+      = (be16 pkt (cs + 4) * 65536 + be16 pkt (cs + 6) + i * g) % 4294967296 ∧
+    byteAt (segs[i]) (cs + 13) = segFlags (byteAt pkt (cs + 13)) i segs.length := by
+  obtain ⟨c, _, _, hg, _, hv, htl, hsq, hfl, hbp, hbt, hip, h12, h18, hle, hn, hsegs⟩ := tcp_view h hwf
+  rw [getElem_of_map_range segs _ _ hsegs i hi]
+  have lX := ipX_length pkt hdrLen cs (by omega) hle
+  have lx := patchIP_length ((pkt.take hdrLen).take cs) c.isV4 hdrLen (segPayload pkt hdrLen g i).length
+    c.origID c.baseIP i (by omega)
+  rw [lX] at lx
+  have lT := l4T_length pkt hdrLen cs hle
+  have hseqlt : (c.origSeq + (i * g) % 4294967296) % 4294967296 < 4294967296 := by omega
+  have hfllt : segFlags c.origFlags i c.numSeg < 256 := segFlags_lt _ _ _ (by rw [hfl]; exact byteAt_lt _ _)
+  have lL := tcpL4_length ((pkt.take hdrLen).drop cs) ((c.origSeq + (i * g) % 4294967296) % 4294967296)
+    (segFlags c.origFlags i c.numSeg) (tcpCk c (segPayload pkt hdrLen g i) i) (by omega)
+  have hP := segPayload_length pkt hdrLen g i
+  have fT := tcpL4_fields ((pkt.take hdrLen).drop cs) ((c.origSeq + (i * g) % 4294967296) % 4294967296)
+    (segFlags c.origFlags i c.numSeg) (tcpCk c (segPayload pkt hdrLen g i) i) (by omega) hseqlt hfllt
+  generalize tcpL4 ((pkt.take hdrLen).drop cs) ((c.origSeq + (i * g) % 4294967296) % 4294967296)
+    (segFlags c.origFlags i c.numSeg) (tcpCk c (segPayload pkt hdrLen g i) i) = L at *
+  have hlen : ∀ x : List UInt8, x.length = cs →
+      (x ++ (L ++ segPayload pkt hdrLen g i)).length = hdrLen + (segPayload pkt hdrLen g i).length := by
+    intro x hx; simp only [List.length_append, hx, lL]; omega
+  refine ⟨?_, ?_, ?_, ?_⟩
+  · intro h4
+    have hv' : c.isV4 = true := by rw [hv]; simpa using h4
+    rw [hv'] at lx ⊢
+    have f := patchIP_v4_fields ((pkt.take hdrLen).take cs) hdrLen (segPayload pkt hdrLen g i).length
+      c.origID c.baseIP i (by omega)
+    rw [be16_append_left _ _ _ (by omega), be16_append_left _ _ _ (by omega), f.1, f.2, hlen _ lx,
+      (hip h4).1]
+    constructor <;> omega
+  · intro h6
+    have hv' : c.isV4 = false := by rw [hv]; simpa using h6
+    rw [hv'] at lx ⊢
+    have h40 : 40 ≤ cs := by rcases hwf with h4 | h40; exact absurd h4 h6; exact h40
+    have f := patchIP_v6_field ((pkt.take hdrLen).take cs) hdrLen (segPayload pkt hdrLen g i).length
+      c.origID c.baseIP i (by omega) (by omega) (by omega)
+    rw [be16_append_left _ _ _ (by omega), f, hlen _ lx]; omega
+  · have e4 : cs + 4 = (patchIP ((pkt.take hdrLen).take cs) c.isV4 hdrLen (segPayload pkt hdrLen g i).length
+        c.origID c.baseIP i).length + 4 := by omega
+    have e6 : cs + 6 = (patchIP ((pkt.take hdrLen).take cs) c.isV4 hdrLen (segPayload pkt hdrLen g i).length
+        c.origID c.baseIP i).length + 6 := by omega
+    conv => lhs; rw [e4, e6, be16_append_right, be16_append_right]
+    rw [be16_append_left _ _ _ (by omega), be16_append_left _ _ _ (by omega), fT.1, hsq]
+    omega
+  · have e13 : cs + 13 = (patchIP ((pkt.take hdrLen).take cs) c.isV4 hdrLen
+        (segPayload pkt hdrLen g i).length c.origID c.baseIP i).length + 13 := by omega
+    have fT2 : (L.getD 13 0).toNat = segFlags c.origFlags i c.numSeg := fT.2
+    show ((_ ++ (L ++ _)).getD (cs + 13) 0).toNat = _
+    conv => lhs; rw [e13, getD_append_right', getD_append_left' _ _ _ (by omega), fT2, hfl, hn]
+
+/-! ### UDP -/
+
+theorem udp_ipv4_csum_valid {pkt : List UInt8} {hdrLen cs g : Nat} {segs : List (List UInt8)}
+    (h : segmentUDP pkt hdrLen cs g = .ok segs) (h4 : v4 pkt)
+    (hfit : hdrLen + min g (pkt.length - hdrLen) ≤ 65535) (i : Nat) (hi : i < segs.length) :
+    verifies ((segs[i]).take (ihlOf pkt)) 0 := by
+  obtain ⟨c, hv, _, hip, h12, h8, hle, hsegs⟩ := udp_view h (Or.inl h4)
+  rw [getElem_of_map_range segs _ _ hsegs i hi]
+  obtain ⟨_, h20, hcs, hb⟩ := hip h4
+  have hv' : c.isV4 = true := by rw [hv]; simpa using h4
+  rw [hv', hb]
+  have := segPayload_length pkt hdrLen g i
+  exact seg_ipv4_verifies pkt _ hdrLen cs _ c.origID i (ihlOf pkt) h20 hcs (by omega) hle (by omega)
+
+/-- UDP checksum validity, the RFC 768 zero rule, the UDP length field, IP lengths and the IPv4 ID of
+every emitted UDP segment. -/
+theorem udp_valid {pkt : List UInt8} {hdrLen cs g : Nat} {segs : List (List UInt8)}
+    (h : segmentUDP pkt hdrLen cs g = .ok segs) (hwf : v4 pkt ∨ 40 ≤ cs)
+    (hfit : hdrLen + min g (pkt.length - hdrLen) ≤ 65535) (i : Nat) (hi : i < segs.length) :
+    verifies ((segs[i]).drop cs) (pseudoSum (addrBytes pkt (decide (v4 pkt))) 17 ((segs[i]).length - cs)) ∧
+    be16 (segs[i]) (cs + 6) ≠ 0 ∧
+    be16 (segs[i]) (cs + 4) = (segs[i]).length - cs ∧
+    (v4 pkt → be16 (segs[i]) 2 = (segs[i]).length ∧ be16 (segs[i]) 4 = (be16 pkt 4 + i) % 65536) ∧
+    (¬ v4 pkt → be16 (segs[i]) 4 + 40 = (segs[i]).length) := by
+  obtain ⟨c, hv, hbp, hip, h12, h8, hle, hsegs⟩ := udp_view h hwf
+  rw [getElem_of_map_range segs _ _ hsegs i hi]
+  have lX := ipX_length pkt hdrLen cs (by omega) hle
+  have lx := patchIP_length ((pkt.take hdrLen).take cs) c.isV4 hdrLen (segPayload pkt hdrLen g i).length
+    c.origID c.baseIP i (by omega)
+  rw [lX] at lx
+  have lT := l4T_length pkt hdrLen cs hle
+  have hP := segPayload_length pkt hdrLen g i
+  have key := udp_l4_verifies ((pkt.take hdrLen).drop cs) (segPayload pkt hdrLen g i) (addrBytes pkt c.isV4)
+    c.baseProto (by omega) (by omega) hbp
+  simp only at key
+  obtain ⟨k1, k2, k3, k4, k5⟩ := key
+  have lU : (set16 (udpL4pre ((pkt.take hdrLen).drop cs) ((8 + (segPayload pkt hdrLen g i).length) % 65536)) 6
+      (udpCsum c.baseProto (8 + (segPayload pkt hdrLen g i).length)
+        (udpL4pre ((pkt.take hdrLen).drop cs) ((8 + (segPayload pkt hdrLen g i).length) % 65536)
+          ++ segPayload pkt hdrLen g i))).length = 8 := by
+    have l1 := set16_length ((pkt.take hdrLen).drop cs) 4 ((8 + (segPayload pkt hdrLen g i).length) % 65536)
+      (by omega)
+    unfold udpL4pre
+    rw [set16_length _ _ _ (by rw [set16_length _ _ _ (by omega), l1]; omega),
+      set16_length _ _ _ (by omega), l1]; omega
+  generalize set16 (udpL4pre ((pkt.take hdrLen).drop cs) ((8 + (segPayload pkt hdrLen g i).length) % 65536)) 6
+      (udpCsum c.baseProto (8 + (segPayload pkt hdrLen g i).length)
+        (udpL4pre ((pkt.take hdrLen).drop cs) ((8 + (segPayload pkt hdrLen g i).length) % 65536)
+          ++ segPayload pkt hdrLen g i)) = U3 at *
+  have hlen : ∀ x : List UInt8, x.length = cs →
+      (x ++ (U3 ++ segPayload pkt hdrLen g i)).length = hdrLen + (segPayload pkt hdrLen g i).length := by
+    intro x hx; simp only [List.length_append, hx, lU]; omega
+  have e4 : cs + 4 = (patchIP ((pkt.take hdrLen).take cs) c.isV4 hdrLen (segPayload pkt hdrLen g i).length
+      c.origID c.baseIP i).length + 4 := by omega
+  have e6 : cs + 6 = (patchIP ((pkt.take hdrLen).take cs) c.isV4 hdrLen (segPayload pkt hdrLen g i).length
+      c.origID c.baseIP i).length + 6 := by omega
+  refine ⟨?_, ?_, ?_, ?_, ?_⟩
+  · rw [drop_nf _ _ cs lx, hlen _ lx, ← hv]
+    have : hdrLen + (segPayload pkt hdrLen g i).length - cs = 8 + (segPayload pkt hdrLen g i).length := by omega
+    rw [this]; exact k1
+  · rw [e6, be16_append_right, k2]; exact k3
+  · rw [e4, be16_append_right, k5, hlen _ lx]; omega
+  · intro h4
+    have hv' : c.isV4 = true := by rw [hv]; simpa using h4
+    rw [hv'] at lx ⊢
+    have f := patchIP_v4_fields ((pkt.take hdrLen).take cs) hdrLen (segPayload pkt hdrLen g i).length
+      c.origID c.baseIP i (by omega)
+    rw [be16_append_left _ _ _ (by omega), be16_append_left _ _ _ (by omega), f.1, f.2, hlen _ lx,
+      (hip h4).1]
+    constructor <;> omega
+  · intro h6
+    have hv' : c.isV4 = false := by rw [hv]; simpa using h6
+    rw [hv'] at lx ⊢
+    have h40 : 40 ≤ cs := by rcases hwf with h4 | h40; exact absurd h4 h6; exact h40
+    have f := patchIP_v6_field ((pkt.take hdrLen).take cs) hdrLen (segPayload pkt hdrLen g i).length
+      c.origID c.baseIP i (by omega) (by omega) (by omega)
+    rw [be16_append_left _ _ _ (by omega), f, hlen _ lx]; omega
+
 end Nebula.Lemmas.SegmentTop
